@@ -2,6 +2,7 @@ package ast
 
 import (
 	"fmt"
+	"strconv"
 	"strings"
 
 	"github.com/smarthome-go/homescript/v3/homescript/errors"
@@ -76,7 +77,12 @@ func (self FloatLiteralExpression) String() string {
 		return fmt.Sprintf("%df", int64(self.Value))
 	}
 
-	return fmt.Sprint(self.Value)
+	// Plain decimal notation: the lexer knows no exponents.
+	text := strconv.FormatFloat(self.Value, 'f', -1, 64)
+	if !strings.Contains(text, ".") {
+		text += ".0"
+	}
+	return text
 }
 
 //
@@ -116,6 +122,15 @@ func escapeHmsString(input string) string {
 	output = strings.ReplaceAll(output, "\t", "\\t")
 	output = strings.ReplaceAll(output, "\b", "\\b")
 	return output
+}
+
+// Renders the key of an object field so that the lexer and parser read the same key back: a key which is not an
+// identifier (or which is a keyword) is written as a string literal with its content escaped.
+func printObjectKey(key string) string {
+	if util.IsIdent(key) && !util.IsKeyword(key) {
+		return key
+	}
+	return fmt.Sprintf("\"%s\"", escapeHmsString(key))
 }
 
 //
@@ -230,13 +245,7 @@ type ObjectLiteralField struct {
 }
 
 func (self ObjectLiteralField) String() string {
-	var key string
-	if !util.IsIdent(self.Key.ident) {
-		key = fmt.Sprintf("\"%s\"", self.Key.ident)
-	} else {
-		key = self.Key.ident
-	}
-	return fmt.Sprintf("%s: %s", key, self.Expression)
+	return fmt.Sprintf("%s: %s", printObjectKey(self.Key.ident), self.Expression)
 }
 
 //
